@@ -1,8 +1,8 @@
 (** C02 — every scheduled event runs exactly once; nothing is lost, duplicated or invented. *)
 From Coq Require Import List ZArith NArith Bool Permutation.
 Import ListNotations.
-From GS Require Import Num NumZ EventLoop Kernel.
-From GS.Proofs Require Import Aux EventLoopP KernelP DriveP.
+From GS Require Import Num NumZ EventLoop Kernel Heap.
+From GS.Proofs Require Import Aux EventLoopP KernelP DriveP HeapP.
 
 (** Conservation over every history of schedule / pop / peek / clear / len operations: what
     was queued plus what was accepted is, as a multiset, what was popped plus what was cleared
@@ -115,3 +115,25 @@ Print Assumptions C02_peek_is_next_pop.
 Print Assumptions C02_run_conservation.
 Print Assumptions C02_any_driving_conservation.
 Print Assumptions C02_iteration_counts_executions.
+
+(** The priority queue itself (transcription of CPython's [heapq], [Heap.v]; its array layout is
+    compared with CPython's on every run): for every array, item type and comparison, [heappush]
+    keeps every queued item and adds exactly the new one, [heappop] removes exactly the item it
+    returns (the first cell) and fails only on the empty array. *)
+Theorem C02_heapq_push_conserves :
+  forall (E : Type) (lt : E -> E -> bool) (h : list E) (x : E),
+    Permutation (heappush lt h x) (x :: h).
+Proof. exact @heappush_perm. Qed.
+
+Theorem C02_heapq_pop_conserves :
+  forall (E : Type) (lt : E -> E -> bool) (h : list E) (m : E) (h' : list E),
+    heappop lt h = Some (m, h') -> Permutation h (m :: h') /\ nth_error h 0 = Some m.
+Proof. exact @heappop_perm. Qed.
+
+Theorem C02_heapq_pop_fails_iff_empty :
+  forall (E : Type) (lt : E -> E -> bool) (h : list E), heappop lt h = None <-> h = [].
+Proof. exact @heappop_none. Qed.
+
+Print Assumptions C02_heapq_push_conserves.
+Print Assumptions C02_heapq_pop_conserves.
+Print Assumptions C02_heapq_pop_fails_iff_empty.
